@@ -2,7 +2,8 @@
 import itertools
 import os
 
-from props.common import *      # noqa: F401,F403
+from props.common import *
+from props.common import Scratch      # noqa: F401,F403
 from props.common import Window, finish, G
 from vt.clock import CLOCK
 from vt.events import Req, Die, Call, EXIT1, KILLED9
@@ -75,6 +76,13 @@ def scenarios(tier):
             if _feasible(evs) and (tier != 'quick' or all(e[0] == 'w' for e in evs)):
                 out.append(Scenario('io', n=2, evs=[list(e) for e in evs], drain='each', E=1 if tier == 'quick' else 2,
                                     tick=0.13, beh='slow'))
+    # the stdout stream of watcher a is a FileStream given by file name: a `set stdout_stream.filename` request builds a new
+    # stream object and closes the old one while the worker keeps running; what it writes afterwards must reach the new file
+    menu3 = [e for e in worker_menu(tier, 1) if e[0] == 'w' and e[2] == 'stdout']
+    for length in (1, 2):
+        for seq in itertools.product(range(len(menu3)), repeat=length):
+            evs = [menu3[i] for i in seq]
+            out.append(Scenario('io', n=1, evs=[list(e) for e in evs], drain='each', E=1 if tier == 'quick' else 2, fs=True))
     out.append(Scenario('cycles', reps=50 if tier != 'quick' else 50, nodet=True))
     return out
 
@@ -128,8 +136,10 @@ def run(scn, ch):
     n = scn.n
     from vt.simkernel import slow
     beh = [slow(0.15)] if scn.p.get('beh') == 'slow' else None
+    fs = bool(scn.p.get('fs'))
+    scratch = Scratch() if fs else None
     world = World(ch, [WSpec('a', numprocesses=n, graceful_timeout=0.5 if beh else 0.1, behaviours=beh,
-                             stdout_stream={'stream': Collector('stdout', log)},
+                             stdout_stream=({'filename': scratch.path('A.log')} if fs else {'stream': Collector('stdout', log)}),
                              stderr_stream={'stream': Collector('stderr', log)}),
                        WSpec('b', numprocesses=1, graceful_timeout=0.1,
                              stdout_stream={'stream': Collector('stdout', log)})],
@@ -140,6 +150,9 @@ def run(scn, ch):
         evs = [Req('incr', name='a'), Req('decr', name='a'), Req('restart', label='restart(b)', name='b'),
                Req('restart', label='restart(a)', name='a'), Req('reload', label='reload(a)', name='a'),
                Req('set', label='set(a.stdout_stream.x)', name='a', options={'stdout_stream.x': 'y'})]
+        if fs:
+            evs[-1] = Req('set', label='set(a.stdout_stream.filename)', name='a',
+                          options={'stdout_stream.filename': scratch.path('B.log')})
         ws = sorted(world.watcher('a').processes) if world.watcher('a') else []
         if len(ws) >= 2:
             evs.append(Req('kill', label='kill(sibling)', name='a', pid=ws[1]))
@@ -221,12 +234,55 @@ def run(scn, ch):
         _drain(world, res, None)
         for (t, pid, s, via) in world.kernel.signal_log:
             terminated_by_daemon.add(pid)
+        if fs:
+            _judge_files(world, res, scratch, written, terminated_by_daemon, procs[0])
+            for key in [k for k in written if k[1] == 'stdout' and (world.kernel.procs[k[0]].watcher or '') == 'a']:
+                del written[key]
         _judge(world, res, log, written, terminated_by_daemon)
         res.outcome = digest([[(c, pid - PID_BASE if pid else None, nm, len(d)) for (_, c, pid, nm, d) in log]])
         return finish(world, res)
     except Abort as e:
         res.check('C17.no_spin', False, 'aborted: %s' % e, where=world.blocked_site())
         return finish(world, res, aborted=str(e))
+    finally:
+        if scratch is not None:
+            if not world.closed:
+                world.close()
+            scratch.close()
+
+
+def _judge_files(world, res, scratch, written, terminated, first):
+    """File mode: watcher a's stdout goes to A.log, then (after a `set stdout_stream.filename`) to B.log.  The observed
+    worker is the only writer until the epilogue, where every live worker of the watcher adds one short record."""
+    content = b''
+    for nm in ('A.log', 'B.log'):
+        if os.path.exists(scratch.path(nm)):
+            with open(scratch.path(nm), 'rb') as f:
+                content += f.read()
+    rest = content
+    for (pid, chan), data in written.items():
+        if chan != 'stdout' or pid == first.pid or (world.kernel.procs[pid].watcher or '') != 'a':
+            continue
+        if pid in terminated:
+            i = rest.find(data)
+            if i >= 0:
+                rest = rest[:i] + rest[i + len(data):]
+            continue
+        i = rest.find(data)
+        res.check('C17.complete', i >= 0, lambda: 'worker %d stdout: its %d bytes are not in the configured files'
+                  % (pid - PID_BASE, len(data)), where='redirector.Handler/stream-replaced-at-run-time', nontrivial=bool(data))
+        if i >= 0:
+            rest = rest[:i] + rest[i + len(data):]
+    w = written.get((first.pid, 'stdout'), b'')
+    res.check('C17.in_order_once', w.startswith(rest),
+              lambda: 'worker %d stdout: the files hold bytes that are not a prefix of what was written (written %d, in the '
+              'files %d)' % (first.pid - PID_BASE, len(w), len(rest)), where='redirector.Handler/stream-replaced-at-run-time',
+              nontrivial=bool(w))
+    if first.pid not in terminated:
+        res.check('C17.complete', rest == w,
+                  lambda: 'worker %d stdout: wrote %d bytes, %d of them are in the configured files (A.log, then B.log after '
+                  'the set request)' % (first.pid - PID_BASE, len(w), len(rest)),
+                  where='redirector.Handler/stream-replaced-at-run-time', nontrivial=bool(w))
 
 
 def _drain(world, res, menu, limit=60):
